@@ -119,8 +119,8 @@ claim("C18", "other",
       "= the three documented mixed-unit panics + one Option::unwrap in _fit; the documented panics are unreachable from reference-unit types (resolved call graph); the unwrap is discharged for "
       "every result type and every cell from the extracted tables (f64: incl. NaN and +-infinity magnitudes). Decimal back-end: magnitude-bound analysis (exact rational vertex enumeration over the polygon of admissible amounts) of every "
       "arithmetic node of every derived operator x unit pair and of convert/==/partial_cmp/+/-// of every reference-unit type x ordered unit pair: every intermediate stays below 2^127/10^18 "
-      "whenever the property's named magnitudes lie in [1e-15, 1e17]. Found and fixed a genuine overflow defect (known_findings.json). NOT decided: decimal range of rate operations and of "
-      "formatting (no named magnitudes bound their intermediates).",
+      "whenever the property's named magnitudes lie in [1e-15, 1e17]; the scale lookups are evaluated by a decimal-mode model interpreter per unit pair; every intermediate of a rate operation is one "
+      "of the named magnitudes. Found and fixed a genuine overflow defect (known_findings.json). NOT decided: the decimal range inside formatting (fpdec's Display).",
       "Trusted: MIR construction makes every language-level panic explicit; f64 arithmetic never panics; allow-listed std functions; fpdec-0.11 overflow semantics as read from its source "
       "(mul/div panic iff the 18-digit result coefficient exceeds i128, add/sub align by <= 10^18).",
       "MIR panic-site inventory + call-graph reachability + table-based discharge + magnitude-bound analysis over value-flow terms (static)", "DESIGN.md §4 C18, §10")
